@@ -58,6 +58,10 @@ type Prop struct {
 	Watchdog    func(tier string) int // seconds per worker
 	Technique   string
 	Env         []string // extra environment for workers
+	// WorkerBin returns the binary to run workers with ("" = this binary), e.g. a -race build
+	WorkerBin func(tier string) string
+	// FatalIsViolation: death of a worker process while executing a case refutes the property (C06, C11)
+	FatalIsViolation bool
 }
 
 var registry = map[string]*Prop{}
@@ -230,7 +234,7 @@ func runReplayCmd(id, file string) int {
 	res, why := replayFile(self, id, file, tmp)
 	if res == nil {
 		fmt.Println("replay did not complete:", why)
-		if id == "C06" {
+		if p.FatalIsViolation {
 			fmt.Printf("VIOLATION property=%s replay=%s\n", id, file)
 			return 1
 		}
@@ -310,7 +314,7 @@ func runParent(id, tier string) int {
 			for _, w := range e.Witness {
 				res, why := replayFile(self, id, filepath.Join(rt, w), tmp)
 				if res == nil {
-					if id == "C06" { // a dying child is how C06's findings may show
+					if p.FatalIsViolation { // a dying child is how such findings may show
 						still = true
 					} else {
 						inconclusive = append(inconclusive, "witness "+w+": "+why)
@@ -380,8 +384,13 @@ func runParent(id, tier string) int {
 		st := states[w]
 		args := []string{"-s", "QUIT", strconv.Itoa(wd), self, "worker", "--prop", id, "--tier", tier, "--seed", strconv.FormatInt(seed, 10),
 			"--w", strconv.Itoa(w), "--W", strconv.Itoa(W), "--start", strconv.FormatInt(st.start, 10), "--skip", strconv.FormatInt(st.skip, 10), "--dir", tmp}
+		if p.WorkerBin != nil {
+			if wb := p.WorkerBin(tier); wb != "" {
+				args[3] = wb
+			}
+		}
 		st.cmd = exec.Command("timeout", args...)
-		st.cmd.Env = append(os.Environ(), p.Env...)
+		st.cmd.Env = append(append(os.Environ(), p.Env...), "GORACE=halt_on_error=0 log_path="+filepath.Join(tmp, "race"), "VERIF_RUN_TMP="+tmp)
 		st.logf, _ = os.Create(filepath.Join(tmp, fmt.Sprintf("worker_%d_%d.log", w, st.start)))
 		st.cmd.Stdout, st.cmd.Stderr = st.logf, st.logf
 		if err := st.cmd.Start(); err != nil {
@@ -429,7 +438,7 @@ func runParent(id, tier string) int {
 				// attribute to the current case
 				curIdx, curCase := readCurrent(filepath.Join(tmp, fmt.Sprintf("current_%d.txt", w)))
 				v := Violation{Property: id, Class: "fatal", Msg: fmt.Sprintf("worker process died (exit %d) while executing this case: %s", code, tail(string(lg), 1500)), Case: curCase, CaseIdx: curIdx}
-				if id == "C06" {
+				if p.FatalIsViolation {
 					merged.ViolCount["fatal"]++
 					merged.Violations = append(merged.Violations, v)
 				} else {
@@ -550,6 +559,9 @@ func runParent(id, tier string) int {
 	}
 	for k, v := range pc.Extra {
 		cov[k] = v
+	}
+	for name, n := range merged.SetSizes() {
+		cov["distinct_"+name] = n
 	}
 	if len(merged.Notes) > 0 {
 		cov["notes"] = merged.Notes
